@@ -243,7 +243,9 @@ def step(ctx, rng, t, m, log):
         pieces = others[:pos] + [(t, m)] + others[pos:]
         log.append([op, sep_m.plain, [p[1].plain for p in pieces]])
         t = sep_t.join(_as_iterable(rng, [p[0] for p in pieces], log))
-        newm = M.TM([], sep_m.base, sep_m.tab, sep_m.overflow)
+        # every character keeps the effective style it had: the separator's own (base) style belongs to the separators,
+        # not to the texts that are joined (the model used to mirror the library, which spread it over the whole result)
+        newm = M.TM([], None, sep_m.tab, sep_m.overflow)
         for k, (_, pm) in enumerate(pieces):
             if k and sep_m.plain:
                 newm.append_tm(sep_m)
